@@ -166,6 +166,9 @@ func (f *Func) LitArgs(pred CallPred) []*Func {
 	return out
 }
 
+// LitFunc returns the Func of a function literal nested in f.
+func (f *Func) LitFunc(fl *ast.FuncLit) *Func { return f.litFunc(fl) }
+
 func (f *Func) litFunc(fl *ast.FuncLit) *Func {
 	root := f.Root()
 	for _, l := range root.Lits {
